@@ -92,7 +92,7 @@ int String :: LastIndexOfIgnoreCase(char ch, uint32 f) const
    else
    {
       const char * p = Cstr();
-      for (int32 i=((int32)Length())-1; i>=(int32)f; i--) if ((p[i] == lowerChar)||(p[i] == upperChar)) return i;
+      for (int32 i=((int32)Length())-1; (i>=0)&&(((uint32)i)>=f); i--) if ((p[i] == lowerChar)||(p[i] == upperChar)) return i;
       return -1;
    }
 }
